@@ -9,7 +9,9 @@
 From Model Require Import Json.
 From Model Require Import Jws JwsJson.
 From Gen Require Import Tables.
-From Proofs Require Import B64Proofs JsonProofs JwsProofs C01Proofs C03Proofs JwsJsonProofs.
+From Model Require C09Jwt.
+From Proofs Require Import B64Proofs JsonProofs JwsProofs C01Proofs C03Proofs JwsJsonProofs C01JwtProofs.
+From Proofs Require ComposeJwsJwt.
 Open Scope N_scope.
 
 Section C01.
@@ -172,6 +174,23 @@ Theorem c01_compact_sound_json_model :
              (co_hseg o ++ 46 :: co_pseg o) (co_sseg o).
 Proof. exact compact_sound_json_model. Qed.
 
+(* jwt.decode without a JWERegistry (jwt.py dispatches on isinstance(registry, JWERegistry)
+   only; model: model/C09Jwt.v over the JWS transport of proofs/ComposeJwsJwt.v): claims are
+   returned only for a value of exactly three segments whose signature verified — a value
+   that was merely ENCRYPTED to the verifier's key (five segments) is never returned *)
+Theorem c01_jwt_decode_only_signed :
+  forall (json_loads : bytes -> res pv) (mac : string -> N -> bytes -> res bytes)
+         (pk_verify : jws_alg_row -> N -> bytes -> bytes -> res bool)
+         (ec_verify : jws_alg_row -> N -> bytes -> Z -> Z -> res bool) src algs tok h c,
+    C09Jwt.decode json_loads (ComposeJwsJwt.jws_tdec mac pk_verify ec_verify src algs) tok = Ok (h, c) ->
+    exists o,
+      tok = co_hseg o ++ 46 :: co_pseg o ++ 46 :: co_sseg o /\
+      no_dot (co_hseg o) = true /\ no_dot (co_pseg o) = true /\ no_dot (co_sseg o) = true /\
+      co_protected o = PDict h /\ b64d (co_pseg o) = Ok (co_payload o) /\
+      json_loads (co_payload o) = Ok c /\
+      verified mac pk_verify ec_verify (reg15 algs) src (PDict h) (co_hseg o ++ 46 :: co_pseg o) (co_sseg o).
+Proof. exact jwt_decode_only_signed. Qed.
+
 (* the model of rfc7797/json.py BEFORE fix01 violates it: in a world where a
    flattened JWS with protected header {"alg":"HS256"} and payload "hello" is
    valid, adding the unprotected header {"b64": false, "crit": ["b64"]} makes
@@ -271,6 +290,7 @@ Proof. vm_compute. reflexivity. Qed.
 
 Print Assumptions c01_compact_sound.
 Print Assumptions c01_compact_sound_json_model.
+Print Assumptions c01_jwt_decode_only_signed.
 Print Assumptions c01_flat_sound.
 Print Assumptions c01_general_sound.
 Print Assumptions c01_none_never_verifies.
